@@ -149,7 +149,8 @@ pub fn gen_program(rng: &mut Rng, big: bool) -> Program {
         for _ in 0..1 + rng.usize(3) {
             shutdowns.push(ShutdownPlan {
                 after_accepts: rng.usize(n + 1),
-                grace: rng.usize(4),
+                // now and then a grace interval so large that the identifier saturates
+                grace: if rng.chance(1, 8) { usize::MAX >> rng.usize(4) } else { rng.usize(4) },
             });
         }
     }
